@@ -1,7 +1,7 @@
 """Running scripts on the real VM and rendering cases / outcomes in the driver's line
 protocol (RUN / AUTH). The plugin and contract families here mirror Model/Instr.lean."""
 from __future__ import annotations
-import struct, sys, threading
+import copy, struct, sys, threading
 from dataclasses import dataclass, field
 from . import impl
 
@@ -144,6 +144,14 @@ def case_line(kind: str, cfg: Cfg, cache: dict, scripts) -> str:
 
 
 # ---------------------------------------------------------------- running the implementation
+class HarnessAbort(BaseException):
+    """raised inside the VM when one case used up its run_tape budget (runaway recursion / loops)"""
+
+
+RUN_TAPE_BUDGET = 30_000
+CASE_SECONDS = 1.0
+
+
 class Capture:
     """Wraps functions.run_tape to capture the (tape, stack, cache) of top-level runs."""
     def __init__(self, F):
@@ -152,9 +160,16 @@ class Capture:
     def __enter__(self):
         cap = self
         orig = self.orig
+        cap.calls = 0
+        import time as _t
+        cap.deadline = _t.time() + CASE_SECONDS
         def run_tape(tape, stack, cache, additional_flags={}):
             if cap.depth == 0:
                 cap.tops.append((tape, stack, cache))
+            cap.calls += 1
+            if cap.calls > RUN_TAPE_BUDGET or (cap.calls & 255 == 0 and _t.time() > cap.deadline):
+                cap.calls = RUN_TAPE_BUDGET + 1
+                raise HarnessAbort('run_tape budget')
             cap.depth += 1
             try:
                 return orig(tape, stack, cache, additional_flags=additional_flags)
@@ -230,6 +245,7 @@ def render(status, stack, cache, log, cnt, rand):
 
 def run_impl(cfg: Cfg, cache_in: dict, script: bytes) -> str:
     """run_script on the implementation, rendered like the driver's reply."""
+    cache_in = copy.deepcopy(cache_in)      # a run must never be able to disturb the case for later runs
     with Env(cfg) as env, Capture(env.F) as cap:
         F = env.F
         try:
@@ -237,15 +253,20 @@ def run_impl(cfg: Cfg, cache_in: dict, script: bytes) -> str:
                 script, cache_vals=cache_in, contracts=env.contracts(), additional_flags=cfg.additional_flags(),
                 plugins=env.plugins(), stack_max_items=cfg.max_items, stack_max_item_size=cfg.max_item_size,
                 callstack_limit=cfg.call_limit)
+            if cap.calls > RUN_TAPE_BUDGET:
+                return 'ABORT stack=? cache=? ret=0 plog=- taint=? cnt=0 rand=0'
             return render('OK', stack, cache, env.log, tape.callstack_count, env.rand)
         except BaseException as e:
             if isinstance(e, (KeyboardInterrupt, SystemExit)):
                 raise
             st, ca = (cap.tops[0][1], cap.tops[0][2]) if cap.tops else (None, None)
+            if cap.calls > RUN_TAPE_BUDGET:
+                return 'ABORT stack=? cache=? ret=0 plog=- taint=? cnt=0 rand=0'
             return render('ERR:' + type(e).__name__, st, ca, env.log, 0, env.rand)
 
 
 def auth_impl(cfg: Cfg, cache_in: dict, scripts) -> str:
+    cache_in = copy.deepcopy(cache_in)
     with Env(cfg) as env, Capture(env.F) as cap:
         F = env.F
         try:
@@ -278,6 +299,8 @@ def compare_run(model: str, impl_: str, want=('stack', 'cache', 'ret', 'plog', '
     """Returns (agree: bool, soft_class_mismatch: bool, why)."""
     if model in ('FUEL', 'GHOST', 'GUARD', 'bad-op'):
         return False, False, 'model:' + model
+    if impl_.startswith('ABORT'):
+        return False, False, 'implementation did not finish within the run_tape budget (the model did)'
     m, i = fields(model), fields(impl_)
     ms, is_ = m['status'], i['status']
     ok_m, ok_i = ms == 'OK', is_ == 'OK'
@@ -313,14 +336,14 @@ def compare_auth(model: str, impl_: str):
     for k in ('stack', 'cache', 'plog', 'rand'):
         if i.get(k) == '?':
             continue
-        if mv == 'T' and k == 'stack':
-            continue    # run_auth_scripts pops the verdict item before returning True
+        if k == 'stack' and m['status'] == 'OK' and m.get('stack', '-') != '-' and ',' not in m.get('stack', ''):
+            continue    # run_auth_scripts pops the single remaining item before judging it
         if m.get(k) != i.get(k):
             return False, k
     return True, ''
 
 
-def in_big_thread(fn, *a, stack_mb=512, reclimit=200000):
+def in_big_thread(fn, *a, stack_mb=512, reclimit=60000):
     """Run fn in a thread with a large stack and recursion limit (deep nesting is a known
     finding of its own and must not leak into unrelated comparisons)."""
     res = {}
